@@ -50,4 +50,33 @@ def suiteView (o : Option SuiteResult) : List (List (String × List String)) :=
   | none => []
   | some s => s.tests.map (fun t => stepsView (some t.result.steps))
 
+/-- suite `api` holds the test `v2.status` (a name with a dot: `@lcc.test(name="v2.status")`, a parametrized naming scheme fed
+    with versions) and the sub-suite `v2` with a test `status`: the two halves of the dotted name spell the path of the
+    sibling.  Workers 1 and 2 run the two tests at the same time, worker 1 with an `lcc.Thread` (10). -/
+def dottedOps : List (Nat × Session.Op) :=
+  [(1, .startTestSession),
+   (1, .startSuite ["api"] (md "api" 0)), (1, .startSuite ["api", "v2"] (md "v2" 0)),
+   (1, .startTest ["api", "v2.status"] (md "v2.status" 0)), (2, .startTest ["api", "v2", "status"] (md "status" 0)),
+   (1, .setStep "request"), (2, .setStep "connect"),
+   (2, .log .info "nested 1"), (1, .log .info "flat 1"), (1, .threadCreate 10), (10, .threadRun),
+   (10, .log .info "flat thread"), (2, .check "nested 2" true none), (10, .threadEnd), (1, .url "u" "flat 2"),
+   (2, .endTest ["api", "v2", "status"]), (1, .endTest ["api", "v2.status"]),
+   (1, .endSuite ["api", "v2"]), (1, .endSuite ["api"]), (1, .endTestSession)]
+
+def dottedReport : Option Report :=
+  match Session.runOps Session.St.init dottedOps with
+  | .ok s =>
+    match Writer.run Writer.initState s.fired with
+    | .ok w => some w.report
+    | .error _ => none
+  | .error _ => none
+
+/-- a location rebuilt from the DOTTED rendering of a path (`tuple(node.path.split("."))`) instead of the names of the
+    node's ancestors -/
+def splitDots : List Char → List Char → List String
+  | [], cur => [String.ofList cur.reverse]
+  | c :: cs, cur => if c = '.' then String.ofList cur.reverse :: splitDots cs [] else splitDots cs (c :: cur)
+
+def resplit (p : Path) : Path := splitDots (".".intercalate p).toList []
+
 end LccModel.WriterLoc
